@@ -17,6 +17,7 @@ from_partial_props from_partial_traceless_props fromPartialCombine_props isOrtho
 isOrthonormFlag_iff isOrthonormFlag_sound isHermFlag_iff isHermFlag_sound isTracelessFlag_sound
 isTracelessFlag_sound_entries fromPartial_rejects_nonorthonormal fromPartial_rejects_nontraceless
 fromPartialGate_ok basis_source_shape'''.split()
+PINS = ['pinFullFromPartial', 'pinExpand', 'pinBasisArrayFinalize']
 GEN_SITES = ['const:basis.flags', 'einsum:basis_ggm_expand_0', 'einsum:basis_Basis_istraceless_0',
              'einsum:basis__full_from_partial_0', 'einsum:basis_expand_0']
 COMPONENTS = ['pauli', 'ggm', 'ggm_expand', 'expand', 'basis_flags']
@@ -309,6 +310,12 @@ def search(ctx, deep=False):
         with_id = bool(rng.integers(0, 2)) and k >= 1
         check_from_partial(ctx, {'seed': int(rng.integers(0, 2**31)), 'd': d, 'k': k,
                                  'with_id': with_id,
+                                 'traceless': [None, True][int(rng.integers(0, 2))]})
+        # labelled sets with the identity somewhere in the middle (generic elements: float traces of
+        # order 1e-17 in front of it)
+        dd = int(rng.choice([3, 4]))
+        check_from_partial(ctx, {'seed': int(rng.integers(0, 2**31)), 'd': dd,
+                                 'k': int(rng.integers(3, dd*dd + 1)), 'with_id': True,
                                  'traceless': [None, True][int(rng.integers(0, 2))]})
         if i % 4 == 0:
             check_rejects(ctx, {'seed': int(rng.integers(0, 2**31)), 'd': d})
